@@ -687,7 +687,9 @@ class PyvalColorizer:
             sub = sub.value
         self._output('[', self.GROUP_TAG, state)
         if isinstance(sub, ast.Tuple):
-            self._multiline(self._colorize_iter, sub.elts, state)
+            # a one-element tuple index needs its ending comma, i.e. 'x[1,]'.
+            self._multiline(self._colorize_iter, sub.elts, state, 
+                            suffix=',' if len(sub.elts) == 1 else None)
         else:
             state.result.append(self.WORD_BREAK_OPPORTUNITY)
             self._colorize(sub, state)
